@@ -173,7 +173,7 @@ impl Prop for C02 {
         (tier == Tier::Thorough).then(|| "RK decoding: all 2^32 RK words x 3 style classes through the rk_num hook".to_string())
     }
     fn mandatory(&self, _t: Tier) -> Vec<String> {
-        ["rk_sweep", "rec:num:NUMBER", "rec:num:RK:RkInt", "rec:num:RK:RkIntDiv100", "rec:num:RK:RkFloat", "rec:num:RK:RkFloatDiv100", "rec:MULRK", "rec:str:LABELSST", "rec:str:LABEL", "rec:bool", "rec:error", "rec:blank", "rec:formula:num", "rec:formula:string", "rec:formula:bool", "rec:formula:error", "shrfmla_between_formula_and_string", "sst_index>=65536", "dense_rectangle", "cell_order:ColMajor", "cell_order:Reversed", "cell_order:Random", "negative_rk_int", "mulrk_col0", "mulrk_col255", "dims:0", "dims:1", "dims:2"]
+        ["rk_sweep", "rec:num:NUMBER", "rec:num:RK:RkInt", "rec:num:RK:RkIntDiv100", "rec:num:RK:RkFloat", "rec:num:RK:RkFloatDiv100", "rec:MULRK", "rec:str:LABELSST", "rec:str:LABEL", "rec:bool", "rec:error", "rec:blank", "rec:formula:num", "rec:formula:string", "rec:formula:bool", "rec:formula:error", "shrfmla_between_formula_and_string", "sst_index>=65536", "dense_rectangle", "error:getting_data", "rec:formula:blank_string", "cell_order:ColMajor", "cell_order:Reversed", "cell_order:Random", "negative_rk_int", "mulrk_col0", "mulrk_col255", "dims:0", "dims:1", "dims:2"]
             .iter().map(|s| s.to_string()).collect()
     }
     fn run_unit(&self, ctx: &Ctx, unit: u64, out: &mut UnitResult) {
@@ -213,6 +213,17 @@ impl Prop for C02 {
             for sh in book.sheets.iter_mut() {
                 for (_, c) in sh.cells.iter_mut() {
                     serial += 1;
+                    if let Val::Err(_) = c.val {
+                        if serial % 4 == 0 {
+                            c.val = Val::Err(ErrKind::GettingData);
+                            out.feat("error:getting_data");
+                        }
+                    }
+                    // a formula whose cached result is the empty string (FormulaValue type 3, no
+                    // STRING record follows)
+                    if c.formula.is_some() && matches!(c.val, Val::Str(_)) && serial % 3 == 0 {
+                        c.val = Val::Str(String::new());
+                    }
                     if let Val::Num(_) = c.val {
                         if rng.chance(2, 3) {
                             c.val = Val::Num(rk_friendly(&mut rng, serial));
